@@ -19,7 +19,7 @@ def proof_part(ctx, props_file, proof_files, cov):
                theorems=a["theorems"],
                print_assumptions="%d of %d statements: Closed under the global context" % (a["closed"], len(a["theorems"])) + ("; AXIOMS: " + " | ".join(a["axioms"]) if a["axioms"] else ""))
     cov["trusted_base"] = TRUSTED + ["axioms reported by Print Assumptions: " + ("none" if not a["axioms"] else " | ".join(a["axioms"]))]
-    if any(f in proof_files for f in ("proofs/Skel.v", "proofs/SkelTwins.v")):
+    if any(f.startswith("proofs/Skel") for f in proof_files):
         cov["source_translation"] = "gen/SrcFacts.v regenerated from xsync_map.go / xsync_mapof.go by harness/srcfacts/skeleton.go; proofs/Skel.v re-checked against it"
         if any(b.startswith("proofs/Skel") for b in broken):
             d = skeleton_diff()
@@ -203,7 +203,7 @@ def check_C09():
 
 def check_C06():
     ctx = Ctx("C06"); cov = {}
-    broken = proof_part(ctx, "props/C06.v", ["proofs/C06_seq.v", "proofs/C06_hist.v", "proofs/C12_twins.v", "proofs/C01_ops.v", "proofs/C02_good.v", "proofs/C02_methods.v", "proofs/C02_lin.v", "proofs/CX_compose.v", "proofs/CX_product.v", "proofs/CX_mapof.v", "proofs/CX_map.v", "proofs/CX_monitor.v", "proofs/CX_monitor_inst.v", "proofs/C02_lin_gen.v", "proofs/C02_methods_of.v", "proofs/SkelDefs.v", "proofs/Skel.v"], cov)
+    broken = proof_part(ctx, "props/C06.v", ["proofs/C06_seq.v", "proofs/C06_hist.v", "proofs/C12_twins.v", "proofs/C01_ops.v", "proofs/C02_good.v", "proofs/C02_methods.v", "proofs/C02_lin.v", "proofs/CX_compose.v", "proofs/CX_product.v", "proofs/CX_mapof.v", "proofs/CX_map.v", "proofs/CX_monitor.v", "proofs/CX_monitor_inst.v", "proofs/C02_lin_gen.v", "proofs/C02_methods_of.v", "proofs/SkelDefs.v", "proofs/SkelTac.v", "proofs/SkelCb.v"], cov)
     res = cache_seq_part(ctx, "C06", cov, N(ctx, 1200, 20000), broken, dense=True)
     law_part(ctx, "C06", cov, res)
     # removals made by the janitor: real time, callback swapped after construction in half of the cases
@@ -498,7 +498,7 @@ def sched_part(ctx, pid, cov, sets, directed=True, extra=()):
 
 def check_C02():
     ctx = Ctx("C02"); cov = {}
-    broken = proof_part(ctx, "props/C02.v", ["proofs/C02_good.v", "proofs/C02_methods.v", "proofs/C02_lin.v", "proofs/C01_sim.v", "proofs/C01_ops.v", "Lin.v", "proofs/CX_trans.v", "proofs/CX_compose.v", "proofs/CX_product.v", "proofs/CX_mapof.v", "proofs/CX_map.v", "proofs/C02_methods_of.v", "proofs/C02_lin_gen.v", "proofs/C02_lin_of.v", "proofs/CX_cacheof.v", "proofs/CX_product2.v", "proofs/CX_mapof2.v", "proofs/CX_map2.v", "proofs/X_linearizable2.v", "proofs/XS_linearizable2.v", "proofs/X_linearizable.v", "proofs/XS_linearizable.v", "XMachine.v", "XMachineS.v", "proofs/SkelDefs.v", "proofs/Skel.v",
+    broken = proof_part(ctx, "props/C02.v", ["proofs/C02_good.v", "proofs/C02_methods.v", "proofs/C02_lin.v", "proofs/C01_sim.v", "proofs/C01_ops.v", "Lin.v", "proofs/CX_trans.v", "proofs/CX_compose.v", "proofs/CX_product.v", "proofs/CX_mapof.v", "proofs/CX_map.v", "proofs/C02_methods_of.v", "proofs/C02_lin_gen.v", "proofs/C02_lin_of.v", "proofs/CX_cacheof.v", "proofs/CX_product2.v", "proofs/CX_mapof2.v", "proofs/CX_map2.v", "proofs/X_linearizable2.v", "proofs/XS_linearizable2.v", "proofs/X_linearizable.v", "proofs/XS_linearizable.v", "XMachine.v", "XMachineS.v", "proofs/SkelDefs.v", "proofs/SkelTac.v", "proofs/Skel.v", "proofs/SkelMap.v",
                                              "LinT.v", "ConcT.v", "proofs/LinT_facts.v", "proofs/LinT_tests.v", "proofs/C02T_good.v", "proofs/C02T_methods.v", "proofs/C02T_lin.v", "proofs/C02T_main.v", "proofs/C02T_methods_of.v", "proofs/C02T_ex.v", "props/C02T.v",
                                              "proofs/CXT_compose.v", "proofs/CXT_product.v", "proofs/CXT_mapof.v", "proofs/CXT_map.v", "proofs/CXT_ex.v", "props/C02TX.v"], cov)
     extra_props(ctx, "props/C02T.v", cov, broken)
@@ -514,7 +514,7 @@ def check_C02():
 def check_C05():
     ctx = Ctx("C05"); cov = {}
     broken = proof_part(ctx, "props/C05.v", ["proofs/C05_spec.v", "proofs/C05_map.v", "proofs/C02_lin.v", "proofs/C02_methods.v", "proofs/C11_table.v",
-                                             "proofs/X_basic.v", "proofs/X_inv.v", "proofs/X_c13.v", "proofs/X_fn.v", "XMachine.v", "props/C03.v", "proofs/XS_fn.v", "XMachineS.v", "proofs/SkelDefs.v", "proofs/Skel.v"], cov)
+                                             "proofs/X_basic.v", "proofs/X_inv.v", "proofs/X_c13.v", "proofs/X_fn.v", "XMachine.v", "props/C03.v", "proofs/XS_fn.v", "XMachineS.v", "proofs/SkelDefs.v", "proofs/SkelTac.v", "proofs/SkelMap.v"], cov)
     n = N(ctx, 1500, 25000)
     sched_part(ctx, "C05", cov, [("Cache", n, []), ("CacheOf_int", n, []), ("Map", n, ["-prefill", "73"]),
                                  ("MapOf_int", n, ["-hasher", "const", "-prefill", "125"]), ("MapOf_str", n, ["-prefill", "121"])])
@@ -735,7 +735,7 @@ def check_C04():
 
 def check_C03():
     ctx = Ctx("C03"); cov = {}
-    broken = proof_part(ctx, "props/C03.v", ["proofs/C11_table.v", "proofs/C11_lists.v", "proofs/X_maps.v", "proofs/XS_inv.v", "TableModel.v", "XMachineS.v", "proofs/XS_lock.v", "proofs/XS_own.v", "proofs/XS_count.v", "proofs/XS_inst.v", "proofs/XS_cells.v", "proofs/XS_vis.v", "proofs/XS_abs.v", "proofs/XS_cinst.v", "proofs/XS_resize.v", "proofs/XS_rinst.v", "proofs/XS_read.v", "proofs/XS_rdinst.v", "proofs/XS_loadhit.v", "proofs/XS_lhinst.v", "proofs/XS_loadmiss.v", "proofs/XS_lminst.v", "proofs/XS_fn.v", "proofs/XS_size.v", "proofs/XS_range.v", "proofs/LinGen.v", "proofs/XS_stale.v", "proofs/XS_linpoints.v", "proofs/XS_linearizable.v", "proofs/XS_linpoints2.v", "proofs/XS_linearizable2.v", "proofs/XS_term.v", "proofs/XS_fair.v", "proofs/X_linpoints.v", "Lin.v"], cov)
+    broken = proof_part(ctx, "props/C03.v", ["proofs/C11_table.v", "proofs/C11_lists.v", "proofs/X_maps.v", "proofs/XS_inv.v", "TableModel.v", "XMachineS.v", "proofs/XS_lock.v", "proofs/XS_own.v", "proofs/XS_count.v", "proofs/XS_inst.v", "proofs/XS_cells.v", "proofs/XS_vis.v", "proofs/XS_abs.v", "proofs/XS_cinst.v", "proofs/XS_resize.v", "proofs/XS_rinst.v", "proofs/XS_read.v", "proofs/XS_rdinst.v", "proofs/XS_loadhit.v", "proofs/XS_lhinst.v", "proofs/XS_loadmiss.v", "proofs/XS_lminst.v", "proofs/XS_fn.v", "proofs/XS_size.v", "proofs/XS_range.v", "proofs/LinGen.v", "proofs/XS_stale.v", "proofs/XS_linpoints.v", "proofs/XS_linearizable.v", "proofs/XS_linpoints2.v", "proofs/XS_linearizable2.v", "proofs/XS_term.v", "proofs/XS_fair.v", "proofs/XS_fair2.v", "proofs/X_linpoints.v", "Lin.v"], cov)
     n = N(ctx, 2000, 30000)
     from . import solo
     fam = solo.resize_families(ctx.tier, [("Map", None)])
@@ -750,7 +750,7 @@ def check_C03():
 
 def check_C14():
     ctx = Ctx("C14"); cov = {}
-    broken = proof_part(ctx, "props/C14.v", ["proofs/X_basic.v", "proofs/X_inv.v", "proofs/X_c13.v", "proofs/X_c16.v", "proofs/X_own.v", "XMachine.v", "props/C03.v", "proofs/XS_lock.v", "proofs/XS_own.v", "proofs/XS_inst.v", "XMachineS.v", "proofs/SkelDefs.v", "proofs/Skel.v"], cov) if os.path.exists(os.path.join(C.COQ, "props/C14.v")) else []
+    broken = proof_part(ctx, "props/C14.v", ["proofs/X_basic.v", "proofs/X_inv.v", "proofs/X_c13.v", "proofs/X_c16.v", "proofs/X_own.v", "XMachine.v", "props/C03.v", "proofs/XS_lock.v", "proofs/XS_own.v", "proofs/XS_inst.v", "XMachineS.v", "proofs/SkelDefs.v", "proofs/SkelTac.v", "proofs/SkelSet.v"], cov) if os.path.exists(os.path.join(C.COQ, "props/C14.v")) else []
     res = run_native(ctx, "race")
     j = res.get("raw") or {}
     cov["native_race"] = dict(race_enabled=j.get("race_enabled"), workloads=len(j.get("workloads", [])), race_reports=j.get("race_reports"),
